@@ -65,7 +65,19 @@ type Recovered struct {
 	Restart string `json:"restart"` // "" or the panic of raft.NewRawNode on the recovered storage
 }
 
-func payload(i, t uint64) []byte { return []byte(fmt.Sprintf("entry %d of term %d", i, t)) }
+// zeroPayloads: entries carry a long run of zero bytes (more than two 512-byte sectors) between two text markers - what a
+// binary-safe value full of NUL bytes looks like in the log; every other scenario runs this way
+var zeroPayloads bool
+
+func payload(i, t uint64) []byte {
+	txt := []byte(fmt.Sprintf("entry %d of term %d", i, t))
+	if !zeroPayloads {
+		return txt
+	}
+	b := append([]byte{}, txt...)
+	b = append(b, make([]byte, 1100+int(i%3)*300)...)
+	return append(b, txt...)
+}
 
 func child(waldir, snapdir, stepsJSON string, segsize int64) {
 	var steps []Step
@@ -177,6 +189,7 @@ func main() {
 	snapdir := fs.String("snap", "", "")
 	steps := fs.String("steps", "[]", "")
 	segsize := fs.Int64("segsize", 256*1024, "child: wal.SegmentSizeBytes")
+	zeros := fs.Bool("zeros", false, "child: entry payloads with long runs of zero bytes")
 	segsizes := fs.String("segsizes", "262144", "run: every scenario once per segment size (comma separated)")
 	minsnaps := fs.Int("minsnaps", 0, "run: only scenarios with at least this many WAL snapshot records")
 	mincuts := fs.Int("mincuts", 0, "run: only scenarios with at least this many Saves that end with a segment cut")
@@ -186,6 +199,7 @@ func main() {
 	seed := fs.Int("seed", 1, "")
 	fs.Parse(os.Args[2:])
 	if mode == "child" {
+		zeroPayloads = *zeros
 		child(*waldir, *snapdir, *steps, *segsize)
 		return
 	}
@@ -266,7 +280,7 @@ func runScenario(self, work string, s Scenario, size string, enc *json.Encoder, 
 	var cur []Step
 	runEpoch := func(expect *Expect, final bool) bool {
 		b, _ := json.Marshal(cur)
-		cmd := exec.Command(self, "child", "-wal", wd, "-snap", sd, "-steps", string(b), "-segsize", size)
+		cmd := exec.Command(self, "child", "-wal", wd, "-snap", sd, "-steps", string(b), "-segsize", size, fmt.Sprintf("-zeros=%v", s.ID%2 == 1))
 		out, err := cmd.Output()
 		txt := string(out)
 		var got *Recovered
